@@ -73,7 +73,40 @@ static struct nv_sel nv_sel_all(struct nv_ilist l)
   return s;
 }
 
+/* tensor1d_t(size): `size` uninitialised weights */
+static struct nv_wvec nv_wvec_make(int64_t n)
+{
+  __CPROVER_assert(n >= 0, "tensor1d_t(size): size >= 0");
+  struct nv_wvec w;
+  w.n = n; w.filled = 0; w.at_g = nv_nondet_double(); w.scratch = nv_nondet_double();
+  return w;
+}
+/* make_rng(seed): the generator is a function of the seed only (assumed); the seed used is recorded */
+uint64_t nv_w_seed;
+static struct nv_rng nv_make_rng(uint64_t seed)
+{
+  struct nv_rng r;
+  r.state = nv_nondet_uint64_t();
+  nv_w_seed = seed;
+  return r;
+}
+/* make_rng(): seeded from std::random_device -- any seed */
+static struct nv_rng nv_make_rng_unseeded(void)
+{
+  struct nv_rng r;
+  r.state = nv_nondet_uint64_t();
+  nv_w_seed = nv_nondet_uint64_t();
+  return r;
+}
+
 #define NV_RET __CPROVER_return_value
+/* class invariant of sampler_t established by its constructor and relied upon by sample() */
+#define NV_GS_NOWEIGHTS(t) ((t) == NVE_gboost_subsample_off || (t) == NVE_gboost_subsample_bootstrap)
+#define NV_GS_INV(s) ((s)->m_weights.n == (NV_GS_NOWEIGHTS((s)->m_type) ? 0 : (s)->m_samples.n) && (s)->m_weights.filled == 0)
+#define NV_CONTRACT_gboost_sampler_ctor \
+__CPROVER_requires(__CPROVER_is_fresh(self, sizeof(*self)) && __CPROVER_is_fresh(samples, sizeof(*samples)) && 0 <= samples->n && samples->n <= NV_MAXN) \
+__CPROVER_assigns(*self, nv_w_seed) \
+__CPROVER_ensures(self->m_samples.n == samples->n && self->m_type == type && NV_SAME(self->m_ratio, ratio) && nv_w_seed == seed && NV_GS_INV(self))
 /* ---- callee contracts = what spec.py/build_sampler proves (back end B) */
 struct nv_sel sample_without_replacement(struct nv_ilist samples, int64_t count, struct nv_rng* rng)
 __CPROVER_requires(0 <= count && count <= samples.n && __CPROVER_is_fresh(rng, sizeof(*rng)))
@@ -97,7 +130,7 @@ __CPROVER_requires(__CPROVER_is_fresh(self, sizeof(*self)) && __CPROVER_is_fresh
 /* registered domain of gboost::subsample_ratio: (0, 1]; the enum's five values; a non-empty training set */ \
 __CPROVER_requires(0.0 < self->m_ratio && self->m_ratio <= 1.0 && self->m_type <= 4 && 1 <= self->m_samples.n && self->m_samples.n <= NV_MAXN) \
 /* established by the constructor: m_weights has one entry per sample for the weighted modes (none otherwise) */ \
-__CPROVER_requires(self->m_weights.n == (NV_WEIGHTED(self->m_type) ? self->m_samples.n : 0) && self->m_weights.filled == 0) \
+__CPROVER_requires(NV_GS_INV(self)) \
 /* shapes: errors_losses is (2, samples), gradients is (samples, ...) */ \
 __CPROVER_requires(errors_losses->rows == 2 && errors_losses->cols == nv_total && gradients->dim0 == nv_total && nv_total >= 0) \
 __CPROVER_assigns(self->m_rng, self->m_weights) \
